@@ -83,11 +83,13 @@ def check_add_and_map(rep: Report, rule: str, f: FuncInfo, map_names: Set[str]) 
             rep.inconclusive(rule, f"{f.short}: add_action argument is not a plain name", f.loc(call), construct=norm(call))
             continue
         recv = norm(call.func.value)
-        if "problem" not in recv.lower():
-            continue
+        if recv == "self":
+            continue  # a problem class adding to itself, not a compiler filling the compiled problem
         x = call.args[0].id
         n += 1
-        cand = {cn for st, m, k in stores if k == x and (not map_names or m in map_names) for cn in cfg.nodes_for(st)}
+        # the map: the one handed to the CompilerResult (when this function builds it) or one received as a parameter
+        params = set(f.params())
+        cand = {cn for st, m, k in stores if k == x and (not map_names or m in map_names or m in params) for cn in cfg.nodes_for(st)}
         if cand:
             w = paired(cfg, node, cand)
             rep.check(w is None, rule, f"{f.short}: add_action({x}) paired with a map entry", f.loc(call), construct=f"{norm(call)} / map[{x}] = ...", detail="" if w is None else f"a path adds {x} to the compiled problem without recording it in the action map: plans using it cannot be mapped back", function=f.qualname, path=path_text(w) if w else None)
@@ -122,7 +124,7 @@ def check_map_all(rep: Report, rule: str, f: FuncInfo, cls: ClassInfo) -> int:
     # for a in <p>.actions: every iteration stores map[a] (or raises)
     stores = _map_stores(f.node)
     for l in cfg.nodes:
-        if l.kind == "for" and norm(l.owner.iter).endswith("new_problem.actions") and isinstance(l.ast, ast.Name):
+        if l.kind == "for" and isinstance(l.owner.iter, ast.Attribute) and l.owner.iter.attr == "actions" and isinstance(l.owner.iter.value, ast.Name) and l.owner.iter.value.id not in f.params() and isinstance(l.ast, ast.Name):
             x = l.ast.id
             cand = {cn for st, m, k in stores if k == x for cn in cfg.nodes_for(st)}
             if not cand:
